@@ -44,7 +44,12 @@ extern void *mpt_array_set(MPT_STRUCT(array) *arr, const MPT_STRUCT(type_traits)
 		errno = EINVAL;
 		return 0;
 	}
-	pos = off * size;
+	/* byte position of element offset must be representable */
+	if ((off < 0) ? ((size_t) -(off + 1) >= (SSIZE_MAX / size)) : ((size_t) off > (SSIZE_MAX / size))) {
+		errno = EINVAL;
+		return 0;
+	}
+	pos = off * (ssize_t) size;
 	
 	if ((buf = arr->_buf)) {
 		if (traits != buf->_content_traits) {
